@@ -70,6 +70,7 @@ func runC23(c *Ctx) {
 	r.Rule("C23.R9", "the payload type a local H.264 track binds to is that of the negotiated codec with the same profile: the profile comparison behind Bind's exact match is true exactly when profile_idc and profile-iop agree (same table as C15.R6)", 16)
 	r.Rule("C23.R10", "ReplaceTrack: every successful return after the new track's Bind passes a store of the codec Bind returned into the encoding's stored context (or a test that the payload type is unchanged): the context a failed later replace re-binds the current track with names the codec it is really bound with", 1)
 	r.Rule("C23.R11", "same rule as C26.R5: a retransmitted packet reaches TrackRemote with its original header - the RTX unwrap reads the original sequence number at 12 + 4*CC (+ 4*(1+L) with a header extension), CC/X/P from byte 0", 6)
+	r.Rule("C23.R12", "no local stored into trackDetails.id / trackDetails.streamID is assigned the result of a cutset-trimming call (strings.Trim/TrimLeft/TrimRight with a constant multi-character alphanumeric cutset): identifiers are cut out of the SDP text by slicing, prefix removal or splitting", 4)
 	r.Rule("C23.R7", "runIfNewReceiver invokes the callback with the incoming track and the receiver of a transceiver whose Mid() equals the track's mid", 3)
 	r.NotCovered = append(r.NotCovered, "packets actually arriving, SRTP, payload integrity", "C12.R3 (announced SSRCs are the ones used by RTPSender.Send) and C15.R4 (negotiated codecs consulted first) are decided by their own properties", "how trackDetailsFromSDP parses the SDP")
 	r.Trusted = append(r.Trusted, "go/types object resolution; go/cfg")
@@ -88,6 +89,7 @@ func runC23(c *Ctx) {
 	c15R6(c, "C23.R9")
 	c23R10(c) // c23c.go
 	c26R5(c, "C23.R11") // c26b.go
+	c23R12(c)
 }
 
 func c23R1(c *Ctx) {
